@@ -40,6 +40,7 @@ class Generator {
   std::vector<Node> leaves;                    // closed leaves (globals, literals)
   std::vector<std::string> varNames{ "a", "b", "c", "d" };
   size_t repsPerKey{ 2 };
+  size_t bodyCacheMax{ 400 };   // entries kept by bodies(); lowered for the depth-2 spaces (each entry holds whole pools)
   bool bothDeep{ true };    // depth 2: binary constructors with BOTH operands non-leaf (false: at most one operand is non-leaf)
   std::set<std::string> skipCalls{ "F5", "F6", "F7", "P2", "P3" };   // callables only reached from curated texts (kept out of the call enumeration)
   size_t bodyReps{ 3 };     // representatives per (constructor, type) kept in binder bodies
@@ -161,7 +162,7 @@ class Generator {
     auto hit = bodyCache.find(key);
     if (hit != bodyCache.end()) { Pool p; p.S = hit->second.first; p.L = hit->second.second; return p; }
     Pool res = bodiesUncached(env, binderDepthLeft);
-    if (bodyCache.size() > 400) bodyCache.clear();        // bounded memory: deep spaces reach thousands of distinct environments
+    if (bodyCache.size() > bodyCacheMax) bodyCache.clear();        // bounded memory: deep spaces reach thousands of distinct environments
     bodyCache[key] = { res.S, res.L };
     return res;
   }
